@@ -92,15 +92,28 @@ theorem tie_entry_types :
      CryptoPsb.BIOSRTMSignatureEntry] = [0x00, 0x0A, 0x50, 0x05, 0x07] := by decide
 
 /-- shape of the psb routines: one verification each; two boundary checks in `getSignedBlob`;
-    `ValidateRTM` appends twice (level-1 directory, then the directory of the level) -/
+    `ValidateRTM` appends at least twice (the level-1 directory, then the directory of the level; the
+    copy of the volume that fixes/C16-rtm-append-copy.diff puts in front may be an `append` too — that
+    it *is* a copy is checked by T2: the image after the call is compared) -/
 theorem tie_psb_calls :
     CryptoPsb.calls_NewSignedBlob_rsa_VerifyPSS.length = 1 ∧
     CryptoPsb.calls_NewTokenKey_NewSignedBlob.length = 1 ∧
     CryptoPsb.calls_PSPBinary_getSignedBlob_checkBoundaries.length = 2 ∧
     CryptoPsb.calls_PSPBinary_getSignedBlob_NewSignedBlob.length = 1 ∧
     CryptoPsb.calls_ValidateRTM_NewSignedBlob.length = 1 ∧
-    CryptoPsb.calls_ValidateRTM_append.length = 2 ∧
+    2 ≤ CryptoPsb.calls_ValidateRTM_append.length ∧
     CryptoPsb.calls_ValidateRTM_checkBoundaries.length = 2 ∧
     CryptoPsb.calls_getKeysFromDatabase_parseKeyDatabase.length = 1 := by decide
+
+/-- shape of the key chain: `getKeysFromDatabase` reads one root key and one key database binary;
+    `GetKeys` runs it once and validates two tokens (ABL, OEM); `ValidateRTM` obtains its key through
+    `GetPSBSignBIOSKey`, which runs `GetKeys` once -/
+theorem tie_psb_chain_calls :
+    CryptoPsb.calls_getKeysFromDatabase_NewRootKey.length = 1 ∧
+    CryptoPsb.calls_getKeysFromDatabase_newPSPBinary.length = 1 ∧
+    CryptoPsb.calls_GetKeys_getKeysFromDatabase.length = 1 ∧
+    CryptoPsb.calls_GetKeys_NewTokenKey.length = 2 ∧
+    CryptoPsb.calls_GetPSBSignBIOSKey_GetKeys.length = 1 ∧
+    CryptoPsb.calls_ValidateRTM_GetPSBSignBIOSKey.length = 1 := by decide
 
 end Fiano.Crypto.Tie
